@@ -90,6 +90,16 @@ pub fn gen_clients(r: &mut Rng, n: usize, with_invalid: bool, max_reqs: usize) -
     (init, clients)
 }
 
+/// One injected errno on a file-system call of server `srv`, or (one case in eight) a short write.
+pub fn gen_io_fault(r: &mut Rng, srv: u32) -> (u32, u32, u8) {
+    let k = r.below(HUB_FAULT_KINDS.len() as u64 + 1) as u8;
+    let nth = match HUB_FAULT_KINDS.get(k as usize) {
+        Some(OpKind::Write | OpKind::Read | OpKind::Open) | None => 1 + r.below(12) as u32,
+        _ => 1 + r.below(4) as u32,
+    };
+    (srv, nth, k)
+}
+
 /// Tiny pipes make every byte a scheduling step: use them only when all bodies are small.
 pub fn pick_pipe_cap(r: &mut Rng, clients: &[ClientProg]) -> u32 {
     let max_body = clients
@@ -215,7 +225,7 @@ impl Check for C03 {
         "exploration"
     }
     fn rule(&self) -> String {
-        "one run = N in 2..4 real `copia serve` processes on one root, each driven by a client actor with 2..5 requests over {Put, Delete, Get, List} on 1..3 shared and private paths (expected = None / initial hash / last hash this client learned / stale), unique Put bodies 24 B..600 KiB sent in seeded pieces; the seeded scheduler (uniform, sticky, PCT d<=3, sequential) interleaves every file-system, flock and pipe step of all processes. The recorded invoke/response history (stamped with the kernel's global step number) is searched for a linearization (Wing-Gong-Lowe) against a sequential CAS map whose final state must equal the final hub tree. Fault batch (a quarter of the runs): one server is killed before a seeded file-system call, or one of its write/rename/open/mkdir/unlink/fsync/read calls fails with EIO/ENOSPC/EACCES; a request that server left unanswered may take effect at any point after it was sent or never, a request it answered with Error must have changed nothing, its listing may omit (never misreport) files, every other reply and the final tree are judged exactly as before. Non-trivial = two Puts on one path overlapped in time or a fault fired; distinct = hash of the interleaved op trace".into()
+        "one run = N in 2..4 real `copia serve` processes on one root, each driven by a client actor with 2..5 requests over {Put, Delete, Get, List} on 1..3 shared and private paths (expected = None / initial hash / last hash this client learned / stale), unique Put bodies 24 B..600 KiB sent in seeded pieces; the seeded scheduler (uniform, sticky, PCT d<=3, sequential) interleaves every file-system, flock and pipe step of all processes. The recorded invoke/response history (stamped with the kernel's global step number) is searched for a linearization (Wing-Gong-Lowe) against a sequential CAS map whose final state must equal the final hub tree. Fault batch (a quarter of the runs): one server is killed before a seeded file-system call, or one of its write/rename/open/mkdir/unlink/fsync/read calls fails with EIO/ENOSPC/EACCES, or one of its file writes is short (judged like a fault-free run); a request that server left unanswered may take effect at any point after it was sent or never, a request it answered with Error must have changed nothing, its listing may omit (never misreport) files, every other reply and the final tree are judged exactly as before. Non-trivial = two Puts on one path overlapped in time or a fault fired; distinct = hash of the interleaved op trace".into()
     }
     fn assumptions(&self) -> Vec<String> {
         vec![
@@ -256,12 +266,7 @@ impl Check for C03 {
             if r.coin() {
                 sc.kill = Some((srv, 1 + r.below(60) as u32, r.below(2) as u8));
             } else {
-                let k = r.below(HUB_FAULT_KINDS.len() as u64) as u8;
-                let nth = match HUB_FAULT_KINDS[k as usize] {
-                    OpKind::Write | OpKind::Read | OpKind::Open => 1 + r.below(12) as u32,
-                    _ => 1 + r.below(4) as u32,
-                };
-                sc.io_fault = Some((srv, nth, k));
+                sc.io_fault = Some(gen_io_fault(&mut r, srv));
             }
         }
         sc
@@ -289,6 +294,7 @@ impl Check for C03 {
         // never fires: such a run is judged like a fault-free one)
         rep.fault("server_kill", run.out.stats.kills);
         rep.fault("injected_io_error", run.out.stats.injected_errors);
+        rep.fault("short_write", run.out.stats.short_writes);
         let faulted: Option<usize> = if run.out.stats.kills > 0 {
             sc.kill.map(|(s, _, _)| s as usize)
         } else if run.out.stats.injected_errors > 0 {
